@@ -141,8 +141,13 @@ def execute(s, ch):
             k.settle()
             res["loaded"] = [pl.name for pl in w.config.plugins]
             args = {"fire_count": "-1", "fire_period": "0", "log_msg": "plug {i}", "span": "line"}
+            # a second tracepoint on the NEXT line: the span of the first one is closed on that line's event, before
+            # the tracepoints of that event are processed - a failing close must not cost them
+            args2 = {"fire_count": "-1", "fire_period": "0", "log_msg": "next {x}", "snapshot": "no_collect"}
             w.service.set_config([w.service.make_tp("tpP", p.basename, 2, args, ["name"], [
-                tpb.Metric(name="m_plug", type=tpb.MetricType.COUNTER)])], "h1")
+                tpb.Metric(name="m_plug", type=tpb.MetricType.COUNTER)]),
+                w.service.make_tp("tpQ", p.basename, 3, args2, [], [tpb.Metric(name="m_next", type=tpb.MetricType.GAUGE)])],
+                "h1")
             w.deep.poll.poll()
             common.wait_until(k, lambda: len(w.handler._tp_config) > 0, 30)
             g = p.load()
